@@ -140,6 +140,9 @@ func (m *Environmental) GetError() error {
 
 // IsEmpty returns true if all elements of Temporal Metrics are empty.
 func (m *Environmental) IsEmpty() bool {
+	if m == nil {
+		return true
+	}
 	return !m.names[metricCDP] && !m.names[metricTD] && !m.names[metricCR] && !m.names[metricIR] && !m.names[metricAR]
 }
 
